@@ -1,53 +1,80 @@
-"""Property -> units, level, assumptions.  Kept in step with MANIFEST.json by bin/gen_manifest.py."""
+"""Property -> units, level, assumptions.  Single source of truth for what is claimed; bin/gen_manifest.py writes
+MANIFEST.json from it."""
+from . import c12 as _c12
+
+TECH = ("contract-based deductive verification: Verus discharges contracts woven into the real functions extracted from "
+        "/repo on every run (units: %s); vacuity canary copies; failures mapped to the property by contract labels")
+
+
+def _p(units, note, text, level="proof", **kw):
+    d = {"units": units, "level": level, "assumptions": [], "level_note": note, "level_text": text}
+    d.update(kw)
+    return d
+
+
+COMMON_TRUST = ("Assumed: the shims' contracts for std / async-std / walkdir / pest / serde_yaml / clap / signal_hook (shims/*.rs, listed with "
+                "every admit/external_body in the evidence trust scan); sequential use of the single ID counter; no concurrent modification of the "
+                "tree during a run; fewer than 2^32 statements.")
 
 PROPS = {
-    "C01": {"units": ["generate"], "level": "proof", "assumptions": []},
-    "C02": {"units": ["generate"], "level": "proof", "assumptions": []},
-    "C03": {"units": ["generate"], "level": "proof", "assumptions": []},
-    "C04": {"units": ["generate"], "level": "proof", "assumptions": []},
-    "C05": {"units": ["generate"], "level": "proof", "assumptions": []},
-    "C06": {"units": ["generate"], "level": "proof", "assumptions": []},
-    "C07": {"units": ["generate"], "level": "proof", "assumptions": []},
-    "C08": {"units": ["generate"], "level": "proof", "assumptions": []},
-    "C17": {"units": ["generate"], "level": "proof", "assumptions": []},
-    "C18": {"units": ["generate"], "level": "proof", "assumptions": []},
+    "C01": _p(["generate", "find"], COMMON_TRUST + " A lock value, when present, is >= 1 (written by Breadlog).",
+              "proof for all entry lists / file sets / counter values: reduce, Insert::map (consecutive checked IDs), the drivers' alloc_inv "
+              "(disjoint ranges above every existing ID) and generate_code; Kani only finds counterexamples for failed obligations"),
+    "C02": _p(["generate", "context"], COMMON_TRUST + " CLAIMED AT OPERATION GRANULARITY FOR RUNS WHOSE LOCK WRITE SUCCEEDS: C02.step carries the escape "
+              "`|| lock_write_failed()`; the write-ahead obligation (lock before rename) is not checked (fails by design of the tool, DESIGN.md B3).",
+              "step contract on generate_code for every exit (success, failed file, stop request): with the cache in use the lock file holds the counter "
+              "value, which is >= every ID written; the lock writer's contract is proved in unit context"),
+    "C03": _p(["generate", "find"], COMMON_TRUST,
+              "Insert::map: the file is its original or an is_token_insertion of it (splice over exactly the missing entries, lemma erase==original); "
+              "frame on all other paths; insertion offsets proved in range and ordered for `find`'s result"),
+    "C04": _p(["generate", "main", "context", "finder"], COMMON_TRUST + " Only calls that have a shim can be judged: an unshimmed external call makes the unit UNDECIDED.",
+              "every mutating shim requires !check_mode at its call site; check_references / main's check branch / Context::new / discovery have frame postconditions"),
+    "C05": _p(["generate", "main", "find"], COMMON_TRUST,
+              "exact verdict of check_references (ok iff files found, not interrupted, tree_missing == 0); the three `missing` filters proved equal to one spec "
+              "predicate; reported locations are the entries' line/column (pest's line_col trusted); count printed only on the all-success path"),
+    "C06": _p(["generate", "find", "entry"], COMMON_TRUST + " NOT DECIDED: that the PEG grammar recognises the edited statement again (grammar clause).",
+              "clauses proved: no-op on a tree without missing references (both scan and cached path, lock value unchanged); inserted token reads back "
+              "(C12 oracle lemma + entry unit)"),
+    "C07": _p(["generate", "main", "context"], COMMON_TRUST + " POSIX rename atomicity; async-std write-cache model; fresh temp name. Operation granularity "
+              "(not inside a syscall, not power loss).",
+              "atomic_inv is a precondition of every mutating shim (= every boundary between two filesystem operations) and a postcondition of every function; "
+              "rename requires flushed complete content; non-atomic writers may not target in-scope files"),
+    "C08": _p(["generate", "main"], COMMON_TRUST + " NOT MODELLED: the temporary-file clause (Drop for AsyncTempFile).",
+              "generate_code: Ok implies every readable file completely edited; failure flag reduced and consumed; main maps Err to non-zero"),
+    "C11": _p(["find"], COMMON_TRUST + " CLAIMED FOR THE CONFIGURED-MACRO CLAUSE ONLY; comments / string literals are the grammar's COMMENT and string rules (not decided).",
+              "macro_of_interest == exact name or module::name; find emits nothing for other names (result == tree_entries)"),
+    "C12": _p(["entry", "find"], "regex crate and str::parse::<u32> are exercised natively on the enumerated set only (BOUNDED, not proved). " + COMMON_TRUST,
+              "bounded-exhaustive conformance of the real extraction (through the real parser) to an oracle that Verus proved equal to the token rule and "
+              "compiled; the inserted-token clause is proved (unit entry: C12.inserted; oracle lemma_inserted_token_reads_back)",
+              level="exploration", extra=[("conformance", _c12.run)],
+              technique="Verus-verified and Verus-compiled oracle (token rule == executable twin; inserted-token lemma) + bounded-exhaustive native conformance "
+                        "run of the real code; the bounded part is labelled bounded"),
+    "C13": _p(["find", "generate", "entry"], COMMON_TRUST + " Relative to the pest parse tree (shape facts generated from the grammar) and str::parse::<u32> as a spec function.",
+              "find's result is proved equal to tree_entries: first `ref` key with a value decides (parsed value or unusable), else `ref = ` at the first argument "
+              "after any target with `, ` / `; `; unusable entries are skipped by all three processors"),
+    "C14": _p(["find"], COMMON_TRUST + " CLAIMED FOR WHERE THE DIRECTIVES ARE EVALUATED AND WHAT THEY SELECT; the line scan itself (str::lines/trim/to_lowercase, regex) "
+              "is the uninterpreted predicate directive_before.",
+              "ignore is evaluated at the macro-name start and removes the entry; no-kvp at the argument start and selects the message branch (result == tree_entries)"),
+    "C15": _p(["context", "main", "generate", "finder"], COMMON_TRUST + " walkdir's traversal and symlink policy; std::path join/parent/extension semantics.",
+              "discovered set == in_scope(walk entries, extensions) exactly (regular file, UTF-8, extension text equal); only those paths are rename targets; "
+              "relative source_dir joined onto parent(--config); lock path = join(config dir, Breadlog.lock)"),
+    "C16": _p(["context", "main", "generate", "finder"], COMMON_TRUST + " serde semantics for the attributes as written (contract generated from them).",
+              "defaults proved for the default_* functions and carried through Context::new; use_cache false: no read, no write; unparsable or id-less lock ignored; "
+              "config / source-dir errors give Err without changing fs"),
+    "C17": _p(["generate", "main", "context", "finder", "find"], COMMON_TRUST + " Panics or super-linear time inside pest, regex, serde_yaml are not covered.",
+              "for every function under contract: no overflow, no out-of-range index/slice, unwrap only on Some/Ok, unreachable!() unreachable (needs the grammar "
+              "shape facts), str slices on char boundaries, every loop terminates; unreadable files are skipped and the rest processed"),
+    "C18": _p(["generate", "main", "finder"], COMMON_TRUST + " Delivery before the handlers exist; the OS.",
+              "both signals registered before either driver is called (call-site obligation); a poll that returned true makes check return Err; an interrupted edit "
+              "keeps atomic_inv and writes the lock"),
 }
+for _k, _v in PROPS.items():
+    _v.setdefault("technique", TECH % ", ".join(_v["units"]))
 
 NOT_APPLICABLE = {
     "C09": "behaviour of compiled user programs (rustc macro expansion + execution of two programs): no contract on Breadlog's functions expresses it",
-    "C10": "completeness of recognition is a theorem about the PEG in rust_grammar.pest as executed by pest's generated parser; Verus cannot take that code and Kani's compiler panics on the regex/pest dependency graph (DESIGN.md §1)",
-    "C11": "not yet built (planned: configured-macro filter clause only)",
-    "C12": "not yet built",
-    "C13": "not yet built",
-    "C14": "not yet built",
-    "C15": "not yet built",
-    "C16": "not yet built",
+    "C10": "completeness of recognition is a theorem about the PEG in rust_grammar.pest as executed by pest's generated parser; Verus cannot take that code and "
+           "Kani's compiler panics on the regex/pest dependency graph (DESIGN.md §1); proving a hand-written model of the grammar would be a different family",
 }
-NOTES = "See DESIGN.md. Exit 2 = UNDECIDED (lost anchor / construct outside the verifier's subset), never on the unchanged tree."
-for _p in ("C04", "C05", "C07", "C08", "C17", "C18"):
-    PROPS[_p]["units"] = PROPS[_p]["units"] + ["main"]
-for _p in ("C02", "C04", "C07", "C17"):
-    PROPS[_p]["units"] = PROPS[_p]["units"] + ["context"]
-PROPS["C15"] = {"units": ["context", "main", "generate"], "level": "proof", "assumptions": []}
-PROPS["C16"] = {"units": ["context", "main", "generate"], "level": "proof", "assumptions": []}
-for _p in ("C04", "C15", "C16", "C17", "C18"):
-    PROPS[_p]["units"] = PROPS[_p]["units"] + ["finder"]
-for _p in ("C03", "C17"):
-    PROPS[_p]["units"] = PROPS[_p]["units"] + ["find"]
-PROPS["C11"] = {"units": ["find"], "level": "proof", "assumptions": []}
-PROPS["C13"] = {"units": ["find", "generate", "entry"], "level": "proof", "assumptions": []}
-PROPS["C14"] = {"units": ["find"], "level": "proof", "assumptions": []}
-for _p in ("C05", "C06", "C12"):
-    PROPS[_p]["units"] = PROPS[_p]["units"] + ["find"]
-for _k in ("C11", "C13", "C14"):
-    NOT_APPLICABLE.pop(_k, None)
-from . import c12 as _c12
-PROPS["C12"] = {"units": ["entry"], "level": "exploration", "assumptions": [
-    "regex crate and str::parse::<u32> are exercised natively on the enumerated set only (bounded, not proved)"],
-    "extra": [("conformance", _c12.run)],
-    "level_text": "bounded-exhaustive conformance of the real extraction (through the real parser) to an oracle that Verus proved equal to the token rule and compiled; "
-                  "the inserted-token clause is proved (unit entry: C12.inserted; oracle lemma_inserted_token_reads_back)",
-    "technique": "Verus-verified and Verus-compiled oracle (token rule == executable twin; inserted-token lemma) + bounded-exhaustive native conformance run of the real code; bounded part labelled bounded"}
-NOT_APPLICABLE.pop("C12", None)
-for _k in ("C15", "C16"):
-    NOT_APPLICABLE.pop(_k, None)
+NOTES = ("See DESIGN.md (design + build log). Exit 2 = UNDECIDED (lost anchor / construct outside the verifier's subset), never on the unchanged tree. "
+         "Partial claims are stated in each check's level_note.")
